@@ -50,6 +50,12 @@ CONFIGS = {
               {"tag": "B", "id": 4, "peers": ["peer2.verif.example"], "realms": [RX, R2]},
               {"tag": "C", "id": 16777251, "peers": ["peer3.other.example"], "realms": [R1, RX]},
               {"tag": "D", "id": 16777251, "peers": ["peer1.verif.example"], "realms": [RX, RX]}]),
+    # the node's own realm is served although no application has a peer in it, no default peer sits in it and it
+    # is nobody's additional realm: a request for it is unsupported (3007), not unroutable (3003)
+    "apps_only_for_peers_in_other_realms": dict(
+        peers=[{"name": "peer1.other.example", "realm": R2}, {"name": "peer2.verif.example"}],
+        apps=[{"tag": "A", "id": 4, "peers": ["peer1.other.example"]},
+              {"tag": "B", "id": 16777251, "peers": ["peer1.other.example"], "realms": [RX]}]),
     "raising_and_threading_apps": dict(
         peers=[{"name": "peer1.verif.example"}, {"name": "peer2.verif.example"}],
         apps=[{"tag": "A", "id": 4, "peers": ["peer1.verif.example"], "behaviour": "raise"},
